@@ -553,8 +553,13 @@ func c06ForwardPositional(c *Ctx, fn *ssa.Function, read *ssa.Call, base ssa.Val
 			if pktOK {
 				tv, okT := constInt(ty.val)
 				rv0, okR := constInt(rs.val)
+				// the size field: uint32(K+n) — written here, or by a header helper that was handed
+				// K+n (putHeader(buf, T, K+n)) or the window base[:K+n] itself (len of it)
+				szOK := sz.val != nil && convOf(sz.val, types.Uint32, isKplusN) ||
+					sz.conv == types.Uint32 && sz.val != nil && isKplusN(sz.val) ||
+					sz.conv == types.Uint32 && sz.val == nil && sz.lenOf != nil && sentOK(sz.lenOf)
 				pktOK = okT && tv == dataT && okR && rv0 == 0 && before(ty.at) && before(rs.at) &&
-					convOf(sz.val, types.Uint32, isKplusN) && inIter(sz.at)
+					szOK && inIter(sz.at)
 			}
 			if pktOK {
 				// the buffer is overwritten by the next read: the write must be complete when Write returns
@@ -626,6 +631,73 @@ func c06ReceiveDirect(c *Ctx, rule string, fn *ssa.Function, w *ssa.Call) bool {
 			payload = sl
 		}
 	})
+	twoStep := false
+	if payload == nil {
+		// two steps: rest := body[2:] (nothing when the body is shorter than the length field), then
+		// rest[:declared length]
+		isRest := func(v ssa.Value) bool {
+			ok := false
+			var walk func(v ssa.Value, d int) bool
+			walk = func(v ssa.Value, d int) bool {
+				switch x := v.(type) {
+				case *ssa.Slice:
+					lo, isC := constInt(x.Low)
+					if x.X == ssa.Value(dataP) && x.Low != nil && isC && lo == 2 && x.High == nil && x.Max == nil {
+						ok = true
+						return true
+					}
+					return false
+				case *ssa.Phi:
+					if d > 2 {
+						return false
+					}
+					for _, e := range x.Edges {
+						if isNil(e) {
+							continue
+						}
+						if !walk(e, d+1) {
+							return false
+						}
+					}
+					return true
+				}
+				return isNil(v)
+			}
+			return walk(v, 0) && ok
+		}
+		var isLen func(v ssa.Value, d int) bool
+		isLen = func(v ssa.Value, d int) bool {
+			if isCblen(v) {
+				return true
+			}
+			if phi, isPhi := v.(*ssa.Phi); isPhi && d < 2 {
+				some := false
+				for _, e := range phi.Edges {
+					if k, isC := constInt(e); isC && k == 0 {
+						continue
+					}
+					if !isLen(e, d+1) {
+						return false
+					}
+					some = true
+				}
+				return some
+			}
+			return false
+		}
+		eachInstr(fn, func(in ssa.Instruction) {
+			sl, ok := in.(*ssa.Slice)
+			if !ok || sl.Low != nil || sl.High == nil || sl.Max != nil {
+				return
+			}
+			if bt, isB := sl.High.Type().Underlying().(*types.Basic); !isB || bt.Kind() != types.Int {
+				return
+			}
+			if isRest(sl.X) && isLen(sl.High, 0) {
+				payload, twoStep = sl, true
+			}
+		})
+	}
 	c.Check(payload != nil, rule, "receive payload-size", fn.Pos(), "payload = body[2 : 2+declared length], the end offset computed in int", "the payload is not the body's bytes 2 .. 2+declared length (or the end offset is computed in a 16-bit type and wraps)")
 	if payload == nil {
 		return true
@@ -645,6 +717,9 @@ func c06ReceiveDirect(c *Ctx, rule string, fn *ssa.Function, w *ssa.Call) bool {
 	}
 	c.Check(written, rule, "receive written", w.Pos(), "the host receives the payload slice, whole", "the bytes written to the host are not the declared-length slice of the packet body")
 	_, guarded := offsetSliceUnderGuard(fn, payload)
+	if twoStep {
+		_, guarded = prefixUnderLenGuard(fn, payload)
+	}
 	c.Check(guarded, rule, "receive complete-fill", payload.Pos(), "the payload is taken only when the body carries the declared number of bytes", "the payload is sliced out without a test that the body carries the declared number of bytes")
 	return true
 }
